@@ -1166,3 +1166,97 @@ def _inline_class_context_managers(modules, canon, K, report):
     for t2 in modules.values():
         ast.fix_missing_locations(t2)
     return progress
+
+
+def inline_nested_defs(tree):
+    """A function defined inside a function (a local closure: no decorator,
+    no default arguments, not a generator, not recursive, writes no
+    enclosing variable) and only ever called directly as a whole statement,
+    the right-hand side of an assignment or a returned value is inlined at
+    those calls (its free variables are the enclosing function's, looked up
+    when it is called - exactly where the inlined statements now stand) and
+    its definition removed.  Anything else stays (and is reported as an
+    unsupported construct)."""
+    K = _Ctx()
+    K.n = 900
+    for outer in [n for n in ast.walk(tree) if isinstance(n, ast.FunctionDef)]:
+        nested = [s for s in ast.walk(outer) if isinstance(
+            s, ast.FunctionDef) and s is not outer]
+        for g in nested:
+            # directly nested only (not inside another nested def)
+            parents = {}
+            for n in ast.walk(outer):
+                for c in ast.iter_child_nodes(n):
+                    parents[id(c)] = n
+            p = parents.get(id(g))
+            enclosing = p
+            while enclosing is not None and not isinstance(
+                    enclosing, (ast.FunctionDef, ast.Lambda, ast.ClassDef)):
+                enclosing = parents.get(id(enclosing))
+            if enclosing is not outer:
+                continue
+            if g.decorator_list or g.args.defaults or g.args.kw_defaults or \
+                    not _inlinable_closure(g):
+                continue
+            outer_stores = {x.id for x in ast.walk(outer)
+                            if isinstance(x, ast.Name) and isinstance(
+                                x.ctx, (ast.Store, ast.Del)) and not any(
+                                x is y for y in ast.walk(g))}
+            g_stores = {x.id for x in ast.walk(g) if isinstance(
+                x, ast.Name) and isinstance(x.ctx, (ast.Store, ast.Del))}
+            g_params = {a.arg for a in g.args.args}
+            sites, other = [], False
+            for n in ast.walk(outer):
+                if isinstance(n, ast.Name) and n.id == g.name and not any(
+                        n is y for y in ast.walk(g)):
+                    c = parents.get(id(n))
+                    if isinstance(n.ctx, ast.Load) and isinstance(
+                            c, ast.Call) and c.func is n:
+                        sites.append(c)
+                    else:
+                        other = True
+            if other or not sites:
+                continue
+            ok = True
+            plan = []
+            for call in sites:
+                stmt = parents.get(id(call))
+                if not ((isinstance(stmt, (ast.Expr, ast.Return)) and
+                         stmt.value is call) or (
+                             isinstance(stmt, ast.Assign) and
+                             stmt.value is call)):
+                    ok = False
+                    break
+                new = _inline_site(g, True, stmt, call, None, None, K)
+                if new is None:
+                    ok = False
+                    break
+                plan.append((stmt, new))
+            if not ok:
+                continue
+            for stmt, new in plan:
+                holder = parents.get(id(stmt))
+                for fld, val in ast.iter_fields(holder):
+                    if isinstance(val, list) and any(x is stmt for x in val):
+                        i0 = [i for i, x in enumerate(val) if x is stmt][0]
+                        val[i0:i0 + 1] = new
+            holder = parents.get(id(g))
+            for fld, val in ast.iter_fields(holder):
+                if isinstance(val, list) and any(x is g for x in val):
+                    val.remove(g)
+                    if not val:
+                        val.append(ast.Pass())
+    ast.fix_missing_locations(tree)
+
+
+def _inlinable_closure(g):
+    for n in ast.walk(g):
+        if isinstance(n, (ast.Yield, ast.YieldFrom, ast.Lambda, ast.Global,
+                          ast.Nonlocal, ast.NamedExpr)):
+            return False
+        if isinstance(n, (ast.FunctionDef, ast.ClassDef)) and n is not g:
+            return False
+        if isinstance(n, ast.Name) and n.id == g.name:
+            return False
+    a = g.args
+    return not (a.vararg or a.kwarg or a.kwonlyargs or a.posonlyargs)
